@@ -29,3 +29,18 @@ Theorem C05_at_least_two_dealt_in : forall s s', wf s -> in_rng s (sm_bb s) ->
   rotate_default s = (Ok, s') -> (2 <= count s' (act s'))%nat.
 Proof. exact rotate_default_two_dealt_in. Qed.
 Print Assumptions C05_at_least_two_dealt_in.
+
+(* the arrival rule, for rotations that keep three or more dealt in (the ring): who is left out sits between the new
+   button and the new big blind, and who does not sit there is dealt in.  (Heads-up rotations choose the button after
+   the flags were computed; that case and the three-hand bound stay with the monitor.) *)
+Theorem C05_left_out_only_while_between_partial : forall s s' z, wf s -> rotate_default s = (Ok, s') ->
+  (3 <= count s' (act s'))%nat -> live s' z = true -> act s' z = false ->
+  between (sm_rule s) (mx s) (sm_dealer s') (sm_bb s') z = true.
+Proof. exact left_out_only_while_between. Qed.
+Print Assumptions C05_left_out_only_while_between_partial.
+
+Theorem C05_not_between_is_dealt_in_partial : forall s s' z, wf s -> rotate_default s = (Ok, s') ->
+  (3 <= count s' (act s'))%nat -> is_hu s = false -> live s z = true ->
+  between (sm_rule s) (mx s) (sm_dealer s') (sm_bb s') z = false -> act s' z = true.
+Proof. exact not_between_is_dealt_in. Qed.
+Print Assumptions C05_not_between_is_dealt_in_partial.
